@@ -91,9 +91,14 @@ def h_normalise(kind, form):
 def h_normalise_int():
     roi = roi_mod()
     n = Int("n", 1)
-    i = Int("i")
-    assume(And(i >= -n, i < n))
-    r = roi.roi_normalise(i, n)
+    i = Int("i")  # any integer: outside [-n, n) array indexing raises IndexError, so must this
+    inside = And(i >= -n, i < n)
+    try:
+        r = roi.roi_normalise(i, n)
+    except IndexError:
+        prove("normint:only_out_of_range_indices_are_refused", Not(inside))
+        return
+    prove("normint:out_of_range_index_is_refused", inside)
     want = ite(i < 0, i + n, i)
     prove("normint:start", r.start == want)
     prove("normint:stop", r.stop == want + 1)
